@@ -95,6 +95,9 @@ func NewKernel(c *Ctx, relPkg, pkgName string, harnesses ...string) (*Kernel, er
 	if kind == "" {
 		kind = defaultSolver
 	}
+	if c.KernelSolver != "" {
+		kind = c.KernelSolver
+	}
 	var sol *smt.Solver
 	var mkSolver func() *smt.Solver
 	if kind == "portfolio" {
@@ -114,7 +117,7 @@ func NewKernel(c *Ctx, relPkg, pkgName string, harnesses ...string) (*Kernel, er
 			s.Cleanup()
 			return nil, err
 		}
-		sol.ResetMode = true
+		sol.ResetMode = !c.KernelIncremental
 	}
 	sol.Prelude = symx.SMTPrelude()
 	k.E = symx.NewEngine(p.Prog)
